@@ -213,7 +213,16 @@ func (server *Server) Validate(ctx context.Context, opts ...ValidationOption) (e
 		return errors.New("server URL has mismatched { and }")
 	}
 
-	if opening != len(server.Variables) {
+	// a variable may be used more than once in the URL: count names, not braces
+	names, err := server.ParameterNames()
+	if err != nil {
+		return err
+	}
+	distinct := make(map[string]struct{}, len(names))
+	for _, name := range names {
+		distinct[name] = struct{}{}
+	}
+	if len(distinct) != len(server.Variables) {
 		return errors.New("server has undeclared variables")
 	}
 
